@@ -369,14 +369,14 @@ def gitEngine : List String → String
       | .corrupt => "err rio-ware-corrupt"
       | .ok ms =>
         -- filters are applied to every entry; a filter that cannot be applied (mtime=now) is the unpack's error (since
-        -- the `fix:`; before, git dropped the error). The final re-paving sets every directory's mtime to the default
-        -- time, whatever the mtime filter says
+        -- the `fix:`; before, git dropped the error). The final re-paving gives every directory the mtime the filter gave
+        -- the conjured root (since the `fix:`; before, the default time whatever the mtime filter said)
         let rs := ms.map (fun m => applyUnpackFilter mu mg ff m)
         match rs.findSome? (fun r => match r with | .err c => some c | _ => none) with
         | some c => "err " ++ c.tok
         | none =>
           let ms' := (ms.zip rs).map (fun (m, r) => match r with
-            | .ok m' => if m'.kind = Kind.dir then { m' with mtime := defaultTime } else m'
+            | .ok m' => m'
             | _ => m)
           let lines := ms'.map (fun m => s!"{toHex m.name.path}|{kindTok m.kind}|{m.perms}|{m.uid}|{m.gid}|{m.mtime.sec}|{toHex m.linkname}")
           ",".intercalate (sortBy (fun (x : String) => x.toUTF8.toList) lines)
